@@ -14,18 +14,22 @@ KF = {
                  "(SEGV on the PROT_NONE tail behind the mapping; without the tail it reads/zeroes foreign memory)"),
     "KF-C15-2": ("KF2", "qb_rb_create_from_file assert()s on a short read of write_pt/read_pt: a marker block followed by a "
                  "tiny word_size and fewer than 12 more bytes aborts the process"),
-    "KF-C15-3": ("KF3", "the record decoder is unbounded: qb_log_blackbox_print_from_file hands message bytes to "
-                 "qb_vsnprintf_deserialize without checking that the format string and its arguments lie inside the chunk, "
-                 "and the decoder can overrun its 512-byte output and its 20-byte directive buffer "
-                 "(heap-buffer-overflow / stack overflow on a changed message area, size word, fn_size or layout)"),
+    "KF-C15-3": ("KF3", "the record decoder trusts the chunk: qb_log_blackbox_print_from_file never checks that the timestamp, "
+                 "msg_len, the format string and its arguments lie inside the bytes it read (heap-buffer-overflow in "
+                 "qb_vsnprintf_deserialize on an unterminated format/argument, a shortened size word, an in-range wrong fn_size or a "
+                 "marker/layout mismatch), and repeated length modifiers (%llll...d) overflow the decoder's one-directive buffer"),
 }
 REPRO = {
     "KF-C15-1": ["Init 1024", "Log 6 0 0 1 40", "Log 6 0 0 1 40", "Dump",
                  "Print none keep ok same b2 ok ok 0 x x"],
     "KF-C15-2": ["Init 1024", "Log 6 0 0 1 40", "Dump",
                  "Print w1 keep one same same ok ok 0 x x"],
-    "KF-C15-3": ["Init 1024", "Log 6 0 0 1 40", "Log 6 0 0 1 40", "Dump",
-                 "Print none keep ok same same ok ok -1 msg unterm"],
+    # one print per root cause: unterminated format, directive buffer, truncated chunk, layout mismatch
+    "KF-C15-3": ["Init 1024", "Log 6 0 0 0 0", "Log 3 1 5 1 40", "Log 7 2 2147483647 2 100", "Log 8 0 1 3 200", "Dump",
+                 "Print none keep ok same same ok ok -1 msg unterm",
+                 "Print none keep ok same same ok ok -1 msg longmod",
+                 "Print none keep ok same same ok ok 1 size trunc",
+                 "Print none add ok same same ok ok 0 x x"],
 }
 # parallelism: TLC workers and harness shards (the build machine is shared; raise VERIF_WORKERS on an idle one)
 W = int(os.environ.get("VERIF_WORKERS", "4") or 4)
@@ -68,8 +72,8 @@ def run(ctx):
 
     # (2) round trip: all short call sequences, then long walks that wrap the ring (three ring sizes, both formats)
     rtx = ctx.generate("BbFileGen.tla", gcfg, mode="bfs", workers=W, consts={"MODE": "rtx", "DEV": 0, "DEPTH": 5 if q else 6}, tag="gen-rtx")
-    rt = ctx.generate("BbFileGen.tla", gcfg, mode="simulate", workers=W, num=600 if q else 8000, depth=82,
-                      consts={"MODE": "rt", "DEV": 0, "DEPTH": 80}, tag="gen-rt")
+    rt = ctx.generate("BbFileGen.tla", gcfg, mode="simulate", workers=W, num=600 if q else 8000, depth=112,
+                      consts={"MODE": "rt", "DEV": 0, "DEPTH": 110}, tag="gen-rt")
     hs = rtx + rt
     n_rt = len(hs)
     ctx.sample({"round_trip_walk": to_lines(rt[0])[:30]})
@@ -78,10 +82,12 @@ def run(ctx):
     #     executed on top of several logging prefixes (no wrap / wrapped small ring / wrapped larger ring)
     small = [["Init", 1024], ["Log", 6, 0, 0, 0, 0], ["Log", 3, 1, 5, 1, 40], ["Log", 7, 2, 2147483647, 2, 100],
              ["Log", 8, 0, 1, 3, 200], ["Dump"]]
-    walks = [h for h in rt if any(op[0] == "Dump" for op in h)]
-    wrapped = [prefix_of(h) for h in walks if sum(1 for op in prefix_of(h) if op[0] == "Log") >= 30]
-    w1024 = [p for p in wrapped if p[0][1] == 1024][:1 if q else 4]
-    wbig = [p for p in wrapped if p[0][1] != 1024][:1 if q else 3]
+    nlogs = lambda p: sum(1 for op in p if op[0] == "Log")
+    pres = sorted((prefix_of(h) for h in rt if any(op[0] == "Dump" for op in h)), key=nlogs, reverse=True)
+    w1024 = [p for p in pres if p[0][1] == 1024 and nlogs(p) >= 35][:1 if q else 4]      # a one-page ring wraps after ~10-30 records
+    wbig = [p for p in pres if p[0][1] != 1024 and nlogs(p) >= 65][:1 if q else 3]       # the larger rings after ~40-70
+    if not w1024 or not wbig:
+        ctx.notes.append("no wrapped logging prefix found for one ring size (seed %d)" % ctx.seed)
     profiles = [small] + w1024 + wbig
     reqs2 = ctx.generate("BbFileGen.tla", gcfg, mode="bfs", workers=W, consts={"MODE": "rob", "DEV": 2, "DEPTH": 1}, tag="gen-rob2")
     reqs2 = [h[0] for h in reqs2]
